@@ -25,11 +25,16 @@ type c06Op struct {
 	a, b   int
 	flag   bool
 	vals   []xhttp2.Setting
-	rogue  bool // the peer deliberately leaves the protocol here
-	head   bool // o: HEAD request
-	trlp1  int  // o: 0 = no trailers, else 1 + the length of the trailer value
-	status int  // ph: 0 = 200 for the first block / a trailer block afterwards, -1 = no :status, else literal
-	clp1   int  // ph: 0 = no content-length, else 1 + its value
+	rogue  bool   // the peer deliberately leaves the protocol here
+	head   bool   // o: HEAD request
+	trlp1  int    // o: 0 = no trailers, else 1 + the length of the trailer value
+	status int    // ph: 0 = 200 for the first block / a trailer block afterwards, -1 = no :status, else literal
+	clp1   int    // ph: 0 = no content-length, else 1 + its value
+	cut    int    // oc: the request is cancelled after that many payload octets of its header block
+	sub    string // h: the operation issued while the writer of stream s is parked in a DATA frame: x r c
+	s2     int    // h: its stream index
+	mid    bool   // h: park in the middle of what the writer can send (else after its first octet)
+	pair   *c06Op // oo: the second request
 }
 
 type c06Run struct {
@@ -47,6 +52,10 @@ type c06Run struct {
 	noForcedWake bool
 	lostWakeups  []string // operations after which a RoundTrip that could go ahead was left asleep
 	exactHits    int      // header / trailer blocks of exactly the targeted length (adaptive scripts)
+	held         int      // operations issued while a writer was parked inside a DATA frame
+	pairs        int      // pairs of requests opened with the delay hook
+	streamOwed   int64    // worst stream-level credit owed on a response that is still being read
+	streamOwedAt uint32
 }
 
 // c06Exec runs a script on a fresh connection. gen, when non-nil, produces the next operation
@@ -114,6 +123,65 @@ func c06ExecMode(t testing.TB, cfg c06Cfg, script []c06Op, gen func(e *c06Env, n
 		case "o":
 			tok = e.open(op.a, op.flag, op.b, c06Shape{head: op.head, trailer: op.trlp1 - 1})
 			e.opened[len(e.opened)-1].tokIdx = len(run.tokens)
+		case "oo":
+			// two requests, the second started while the first sits between id allocation and its
+			// HEADERS write: two plain opens for the model
+			if e.pending != nil || op.pair == nil {
+				break
+			}
+			toks, sts := e.openPair(*op, *op.pair)
+			fs := e.take(true)
+			var fa, fb []string
+			for _, f := range strings.Split(fs, ",") {
+				if sts[1].cs != nil && c06StreamOf(f) == int(sts[1].id) && f != "X" && f != "T" && f != "-" {
+					fb = append(fb, f)
+				} else if f != "-" {
+					fa = append(fa, f)
+				}
+			}
+			if len(fb) == 0 {
+				fb = []string{"-"}
+			}
+			if len(fa) == 0 || fa[0] == "X" || fa[0] == "T" {
+				fa = append([]string{"-"}, fa...)
+			}
+			sts[0].tokIdx, sts[1].tokIdx = len(run.tokens), len(run.tokens)+1
+			run.tokens = append(run.tokens, toks[0], toks[1])
+			run.transcript = append(run.transcript, strings.Join(fa, ","), strings.Join(fb, ","))
+			run.pairs++
+			continue
+		case "tc":
+			// the last feed of an upload with trailers, cancelled inside the trailer block (RoundTrip
+			// still waiting for the response: the cancellation is noticed at once)
+			if st := e.streams[id(op)]; st != nil && st.body != nil && !st.dead() && !st.aborted && st.released == st.recvd && st.phSent == 0 &&
+				st.trailer > op.cut && op.cut >= 0 && e.pending == nil && e.lastFeed(st, op.a) {
+				tok = e.feedCancel(st.id, op.a, op.cut)
+			}
+		case "oc":
+			tok = e.openCancel(op.a, op.flag, op.b, c06Shape{head: op.head, trailer: op.trlp1 - 1}, op.cut)
+			e.opened[len(e.opened)-1].tokIdx = len(run.tokens)
+		case "h":
+			st := e.streams[id(op)]
+			var st2 *c06Stream
+			if op.s2 >= 0 && op.s2 < len(e.order) {
+				st2 = e.streams[e.order[op.s2]]
+			}
+			if st == nil || st2 == nil || st == st2 || e.pending != nil ||
+				!(st.body != nil && !st.dead() && !st.aborted && st.released == st.recvd && st.body.remaining() > 0) {
+				break
+			}
+			switch op.sub {
+			case "r":
+				if st2.res != nil && !st2.noBody && !st2.closedB && !st2.readErr && st2.buffered > 0 {
+					tok = e.feedHeld(st.id, op.a, op.mid, "r", st2.id, op.b)
+				}
+			case "x":
+				if st2.res != nil && !st2.closedB {
+					tok = e.feedHeld(st.id, op.a, op.mid, "x", st2.id, 0)
+				}
+			case "c":
+				tok = e.feedHeld(st.id, op.a, op.mid, "c", st2.id, 0)
+			}
 		case "f":
 			if st := e.streams[id(op)]; st != nil && st.body != nil && !st.dead() && !st.aborted && st.released == st.recvd && st.body.remaining() > 0 {
 				tok = e.feed(st.id, op.a)
@@ -190,6 +258,10 @@ func c06ExecMode(t testing.TB, cfg c06Cfg, script []c06Op, gen func(e *c06Env, n
 	run.history = append([]string{}, e.hist...)
 	run.lostWakeups = append([]string{}, e.lostWakeups...)
 	run.exactHits = e.exactHits
+	run.held = e.heldCount
+	if !e.closed {
+		run.streamOwed, run.streamOwedAt = e.streamCreditOwed()
+	}
 	run.timeouts = e.timeouts
 	if !e.closed {
 		run.creditOwed = e.creditOwed()
@@ -312,7 +384,18 @@ func c06Judge(s *verifh.Session, runs []*c06Run) {
 		unexpectedClose := r.closedAt >= 0 && !r.rogue && !r.idleClose
 		// credit: at quiescence the client owes the peer less than inflowMinRefresh beyond what is
 		// still unread (an independent reading of "credit is returned for every consumed byte")
-		creditOK := r.creditOwed >= 0 && r.creditOwed < 4096
+		// (the same per response that is still being received and read, at stream level)
+		creditOK := r.creditOwed >= 0 && r.creditOwed < 4096 && r.streamOwed < 4096
+		if r.streamOwed >= 4096 {
+			s.Count("stream-credit-owed")
+			r.human += fmt.Sprintf(" [stream %d is owed %d octets of stream-level credit]", r.streamOwedAt, r.streamOwed)
+		}
+		for k := 0; k < r.held; k++ {
+			s.Count("held-op")
+		}
+		for k := 0; k < r.pairs; k++ {
+			s.Count("open-pair")
+		}
 		if !creditOK {
 			s.Count("credit-owed")
 		}
@@ -469,7 +552,7 @@ type c06Script struct {
 	cfg    c06Cfg
 	script []c06Op
 	name   string
-	nowake bool                            // run in the wake-up lane (no forced broadcast)
+	nowake bool                          // run in the wake-up lane (no forced broadcast)
 	gen    func(e *c06Env, n int) *c06Op // adaptive continuation of the script
 }
 
@@ -498,7 +581,9 @@ func c06Directed() []c06Script {
 	}
 	// request shapes and response kinds of round 4
 	openHead := func() c06Op { return c06Op{kind: "o", flag: true, head: true} }
-	openTrl := func(body int, known bool, trl int) c06Op { return c06Op{kind: "o", a: body, flag: known, trlp1: trl + 1} }
+	openTrl := func(body int, known bool, trl int) c06Op {
+		return c06Op{kind: "o", a: body, flag: known, trlp1: trl + 1}
+	}
 	resp := func(s int, end bool, status, cl int) c06Op {
 		return c06Op{kind: "ph", s: s, flag: end, status: status, clp1: cl + 1}
 	}
@@ -636,6 +721,75 @@ func c06Directed() []c06Script {
 	// MAX_CONCURRENT_STREAMS raises it to the default of 1000: that must wake the 101st request)
 	addNoWake("wake-first-settings-default", strict, cat(rep(100, open(0, true, 0)), []c06Op{open(0, true, 0), S(), ph(0, true), ping})...)
 	addNoWake("wake-goaway", strict, S(c06Set(xhttp2.SettingMaxConcurrentStreams, 1)), open(0, true, 0), open(0, true, 0), c06Op{kind: "pg", s: -1, a: 1}, ph(0, true))
+	// ---- round 5
+	// 22. a request cancelled at every kind of point of a multi-frame header block: inside the
+	//     first frame, at a frame boundary +-1, inside a CONTINUATION frame, one octet before the
+	//     end; with and without a body / a HEADERS priority; two frame sizes. The block is written
+	//     to its END_HEADERS whatever happens, RST_STREAM follows it
+	oc := func(body int, known bool, pad, cut int) c06Op {
+		return c06Op{kind: "oc", a: body, flag: known, b: pad, cut: cut}
+	}
+	for _, c := range []c06Cfg{def, chrome} {
+		var ops []c06Op
+		ops = append(ops, S())
+		for _, cut := range []int{1, 16378, 16379, 16380, 16383, 16384, 16385, 20000, 32768, 32769, 49151, 49152, 49999} {
+			ops = append(ops, oc(0, true, 50000, cut))
+		}
+		ops = append(ops, oc(100, true, 40000, 16384), oc(70000, false, 33000, 20000), c06Op{kind: "oc", a: 10, flag: true, b: 40000, trlp1: 6, cut: 32768},
+			S(c06Set(xhttp2.SettingMaxFrameSize, 20000)), oc(0, true, 50000, 19995), oc(0, true, 50000, 20000), oc(0, false, 50000, 40001), oc(0, true, 20100, 20000), ping)
+		add("cancel-in-header-block-"+c.name, c, ops...)
+	}
+	// 22b. the same inside the request's trailer block (the last body octets are written first)
+	tc := func(s, cut int) c06Op { return c06Op{kind: "tc", s: s, cut: cut} }
+	for _, c := range []c06Cfg{def, firefox} {
+		var ops []c06Op
+		ops = append(ops, S(c06Set(xhttp2.SettingInitialWindowSize, 1<<20)), wu(-1, 1<<20))
+		for i, cut := range []int{0, 1, 16378, 16379, 16383, 16384, 16385, 32768, 39999} {
+			ops = append(ops, openTrl(100+i, i%2 == 0, 40000), tc(i, cut))
+		}
+		ops = append(ops, openTrl(30000, true, 50000), feed(9), tc(9, 20000), ping)
+		add("cancel-in-trailer-block-"+c.name, c, ops...)
+	}
+	// 23. Body.Close / Body.Read / cancel on one stream while another stream's body writer is parked
+	//     in the middle of a DATA frame (cc.wmu held): Close at every state of the response - data
+	//     unread, partly read, fully received (END_STREAM seen) and unread, nothing unread -; the
+	//     credit is committed under cc.mu and the WINDOW_UPDATE has to wait for cc.wmu, not be dropped
+	held := func(s int, sub string, s2, m int, mid bool) c06Op {
+		return c06Op{kind: "h", s: s, sub: sub, s2: s2, b: m, mid: mid}
+	}
+	for _, c := range []c06Cfg{def, small} {
+		add("held-close-"+c.name, c, S(c06Set(xhttp2.SettingInitialWindowSize, 1<<20)), wu(-1, 1<<20), open(400000, true, 0),
+			open(0, true, 0), ph(1, false), pd(1, 16384, 0, false), pd(1, 5000, 0, false), held(0, "x", 1, 0, false),
+			open(0, true, 0), ph(2, false), pd(2, 8192, 0, false), pd(2, 8192, 7, true), held(0, "x", 2, 0, true),
+			open(0, true, 0), ph(3, false), pd(3, 16384, 0, false), held(0, "r", 3, 5000, false), held(0, "r", 3, 1000, true), held(0, "r", 3, 3000, false), held(0, "x", 3, 0, false),
+			open(0, true, 0), ph(4, false), pd(4, 4095, 0, false), held(0, "x", 4, 0, true),
+			open(0, true, 0), ph(5, false), pd(5, 6000, 0, false), rd(5, 6000), held(0, "x", 5, 0, false),
+			open(100, true, 0), held(0, "c", 6, 0, false),
+			open(0, true, 0), ph(7, false), pd(7, 9000, 0, true), held(0, "r", 7, 100000, true),
+			// several later requests still get through a peer that enforces its windows
+			open(0, true, 0), ph(8, false), pd(8, 16384, 0, false), pd(8, 16384, 0, true), rd(8, 100000), ping)
+	}
+	// 24. a request queued for a MAX_CONCURRENT_STREAMS slot while the peer changes its SETTINGS:
+	//     what the stream is opened with (send window, frame size, scratch buffer) is what is in
+	//     force when it gets its slot, not when it was queued (forced and unforced wake-ups)
+	for _, nw := range []bool{false, true} {
+		f := add
+		name := "queued-settings"
+		if nw {
+			f, name = addNoWake, "queued-settings-nowake"
+		}
+		f(name, strict, S(c06Set(xhttp2.SettingMaxConcurrentStreams, 1), c06Set(xhttp2.SettingInitialWindowSize, 65535)), wu(-1, 1<<20),
+			open(0, true, 0), open(100000, true, 0), S(c06Set(xhttp2.SettingInitialWindowSize, 1000)), ph(0, true), feed(1), feed(1), wu(1, 100000), feed(1), c06Op{kind: "pr", s: 1, b: 8},
+			open(0, true, 0), open(100000, false, 0), S(c06Set(xhttp2.SettingInitialWindowSize, 200000), c06Set(xhttp2.SettingMaxFrameSize, 65536)), S(c06Set(xhttp2.SettingMaxFrameSize, 32768)), ph(2, true), feed(3), feed(3), c06Op{kind: "pr", s: 3, b: 8},
+			open(0, true, 0), open(50000, true, 40000), S(c06Set(xhttp2.SettingInitialWindowSize, 0), c06Set(xhttp2.SettingMaxFrameSize, 16384)), S(c06Set(xhttp2.SettingInitialWindowSize, 5)), ph(4, true), feed(5), feed(5), ping)
+	}
+	// 25. two requests, the second started while the first sits between stream id allocation and
+	//     its HEADERS write: ids reach the wire in order, each block in one piece
+	pair := func(a, b c06Op) c06Op { a.kind = "oo"; a.pair = &b; return a }
+	for _, c := range []c06Cfg{def, firefox} {
+		add("open-pair-"+c.name, c, S(), pair(open(0, true, 0), open(0, true, 0)), pair(open(100, true, 40000), open(0, true, 20000)), pair(open(0, true, 0), openHead()),
+			pair(openTrl(10, true, 5), open(0, false, 0)), ph(0, true), ph(1, true), pair(open(0, true, 33000), open(0, true, 0)), ping)
+	}
 	// 21. header blocks and trailer blocks of exactly k frames (END_HEADERS on a full frame)
 	for _, c := range []c06Cfg{def, chrome} {
 		out = append(out, c06Script{cfg: c, name: "exact-header-blocks-" + c.name, gen: c06ExactBlocks(c)})
@@ -856,6 +1010,21 @@ func c06Gen(r *rand.Rand, maxOps int) func(e *c06Env, n int) *c06Op {
 				case 1, 2:
 					op.trlp1 = 1 + verifh.Pick(r, []int{0, 5, 100, 16300, 16384, 20000, 40000}) // declared trailers (also without a body)
 				}
+				if r.Intn(8) == 0 && len(e.order) < 5 && !(e.cfg.strict && int64(e.liveCount())+1 >= e.slotLimit()) {
+					second := c06Op{kind: "o", a: verifh.Pick(r, c06Sizes), flag: r.Intn(4) != 0, b: r.Intn(200)}
+					op.kind, op.pair = "oo", &second
+					return op
+				}
+				if pad >= 16300 && r.Intn(2) == 0 && !(e.cfg.strict && int64(e.liveCount()) >= e.slotLimit()) {
+					// cancelled while the header block is being written: after 1 octet, around the frame
+					// boundaries of the acknowledged MAX_FRAME_SIZE (with and without the 5 priority
+					// octets), anywhere, one octet before the end of the padding field
+					mf := int(e.maxFrame)
+					cut := verifh.Pick(r, []int{1, mf - 6, mf - 5, mf - 1, mf, mf + 1, 2 * mf, 2*mf + 1, pad - 1, 1 + r.Intn(pad-1)})
+					if cut >= 1 && cut < pad {
+						op.kind, op.cut = "oc", cut
+					}
+				}
 				return op
 			case k < 38: // feed
 				if len(feedable) == 0 || busy {
@@ -865,7 +1034,42 @@ func c06Gen(r *rand.Rand, maxOps int) func(e *c06Env, n int) *c06Op {
 				if r.Intn(4) == 0 {
 					nn = verifh.Pick(r, []int{1, 100, 8192, 16383, 16384})
 				}
-				return &c06Op{kind: "f", s: verifh.Pick(r, feedable), a: nn}
+				fs := verifh.Pick(r, feedable)
+				if st := e.streams[e.order[fs]]; st.trailer >= 16300 && st.phSent == 0 && e.pending == nil && e.lastFeed(st, nn) && r.Intn(2) == 0 {
+					mf := int(e.maxFrame)
+					cut := verifh.Pick(r, []int{0, 1, mf - 6, mf - 5, mf - 1, mf, mf + 1, 2 * mf, st.trailer - 1, r.Intn(st.trailer)})
+					if cut >= 0 && cut < st.trailer {
+						return &c06Op{kind: "tc", s: fs, a: nn, cut: cut}
+					}
+				}
+				if r.Intn(3) == 0 && e.pending == nil {
+					// an operation on another stream while this stream's writer is parked inside a DATA
+					// frame (cc.wmu held): Body.Close at whatever state the response is in, Body.Read, cancel
+					var cands []c06Op
+					for _, i := range closable {
+						if i != fs {
+							cands = append(cands, c06Op{kind: "h", s: fs, a: nn, sub: "x", s2: i}, c06Op{kind: "h", s: fs, a: nn, sub: "x", s2: i})
+						}
+					}
+					for _, i := range readable {
+						if i != fs {
+							for rep := 0; rep < 3; rep++ {
+								cands = append(cands, c06Op{kind: "h", s: fs, a: nn, sub: "r", s2: i, b: verifh.Pick(r, []int{1, 1000, 3000, 4096, 5000, 65536})})
+							}
+						}
+					}
+					for _, i := range cancellable {
+						if i != fs {
+							cands = append(cands, c06Op{kind: "h", s: fs, a: nn, sub: "c", s2: i})
+						}
+					}
+					if len(cands) > 0 {
+						op := verifh.Pick(r, cands)
+						op.mid = r.Intn(2) == 0
+						return &op
+					}
+				}
+				return &c06Op{kind: "f", s: fs, a: nn}
 			case k < 46:
 				inc := verifh.Pick(r, []int{1, 2, 100, 16383, 16384, 16385, 65535, 100000, 1 << 20, 1 << 24})
 				if r.Intn(3) == 0 || len(live) == 0 {
@@ -1025,7 +1229,7 @@ func c06Gen(r *rand.Rand, maxOps int) func(e *c06Env, n int) *c06Op {
 // against the Lean strict-peer monitor.
 func TestVerif_C06_script(t *testing.T) {
 	s := verifh.New(t, "C06", "script",
-		"real ClientConn (Transport.NewClientConn, loopback TCP) against a frame-script peer (x/net/http2 Framer + hpack), one caller/peer operation at a time to quiescence; 40 directed scripts (body sizes around 16384/65535/window+-1, INITIAL_WINDOW_SIZE up/down/negative, MAX_FRAME_SIZE, MAX_CONCURRENT_STREAMS, WINDOW_UPDATE increments and overflow, RST_STREAM, GOAWAY, padding, reads around the 4096 refresh threshold, close with unread data, browser presets, caller fingerprints) + random scripts of up to 60 operations on default/Chrome/Firefox/Safari/random fingerprints; compared: per-operation frame list (type, stream, length, flags, settings, increments) with the Lean model; property oracle: Lean monitor verdict on the recorded history, no unexpected connection close, no stall; non-trivial = at least 4 operations")
+		"real ClientConn (Transport.NewClientConn, loopback TCP) against a frame-script peer (x/net/http2 Framer + hpack), one caller/peer operation at a time to quiescence; 58 directed scripts (body sizes around 16384/65535/window+-1, INITIAL_WINDOW_SIZE up/down/negative, MAX_FRAME_SIZE, MAX_CONCURRENT_STREAMS, WINDOW_UPDATE increments and overflow, RST_STREAM, GOAWAY, padding, reads around the 4096 refresh threshold, close with unread data, browser presets, caller fingerprints; round 5, through a gate between the ClientConn and the socket that parks the writer inside a frame write: a request cancelled after a chosen octet of its header / trailer block (oc, tc), Body.Close / Body.Read / cancel on one stream while another stream's writer holds cc.wmu inside a DATA frame (hx, hr, hc), two requests with the first held between id allocation and HEADERS (open pairs), requests queued for a stream slot across SETTINGS changes) + random scripts of up to 60 operations on default/Chrome/Firefox/Safari/random fingerprints; compared: per-operation frame list (type, stream, length, flags, settings, increments) with the Lean model; property oracle: Lean monitor verdict on the recorded history, no unexpected connection close, no stall, connection- and stream-level credit owed < 4096, no lost wake-up; non-trivial = at least 4 operations")
 	log.SetOutput(io.Discard)
 	s.OracleIndependent = true // DATA/WINDOW_UPDATE sizes are the implementation's choice, the monitor is the property
 	var runs []*c06Run
